@@ -152,6 +152,8 @@ pub open spec fn depth_after(c: Seq<char>, n: int) -> int
     if n <= 0 { 1 } else { depth_after(c, n - 1) + (if c[n - 1] == '(' { 1int } else if c[n - 1] == ')' { -1int } else { 0int }) }
 }
 pub open spec fn after_open(t: Seq<char>, i: int) -> Seq<char> { t.subrange(i + 2, t.len() as int) }
+// the `$(` at k is never closed: the nesting depth behind it stays at 1 or above to the end of the text
+pub open spec fn never_closed(t: Seq<char>, k: int) -> bool { forall|n: int| 0 <= n <= t.len() - (k + 2) ==> #[trigger] depth_after(after_open(t, k), n) >= 1 }
 pub proof fn lemma_depth_prefix(a: Seq<char>, b: Seq<char>, n: int)
     requires 0 <= n <= a.len(), n <= b.len(), forall|k: int| 0 <= k < n ==> a[k] == b[k],
     ensures depth_after(a, n) == depth_after(b, n),
@@ -239,10 +241,11 @@ split_first = Fn(S, 'split_first_substitution', ret='r', props=('C11',),
     ],
     let_types={'i': 'usize', 'j': 'usize'},
     hints={'before-text:let cmd: String = vx_collect(&chars, i + 2, j);':
-               'assert forall|n: int| 0 <= n <= j - (i + 2) implies '
+               # (guarded: when the closing parenthesis was NOT found the slicing below must fail as a safety obligation of its own, not be masked by this hint)
+               'if j < chars@.len() { assert forall|n: int| 0 <= n <= j - (i + 2) implies '
                '#[trigger] depth_after(text@.subrange(i + 2, j as int), n) == depth_after(after_open(text@, i as int), n) by '
                '{ lemma_depth_prefix(text@.subrange(i + 2, j as int), after_open(text@, i as int), n); } '
-               'assert(text@ =~= text@.subrange(0, i as int) + seq![\'$\', \'(\'] + text@.subrange(i + 2, j as int) + seq![\')\'] + text@.subrange(j + 1, text@.len() as int));',
+               'assert(text@ =~= text@.subrange(0, i as int) + seq![\'$\', \'(\'] + text@.subrange(i + 2, j as int) + seq![\')\'] + text@.subrange(j + 1, text@.len() as int)); }',
            'before-text:let cmd: String = vx_collect(&chars, i + 1, j);':
                'assert(text@ =~= text@.subrange(0, i as int) + seq![\'`\'] + text@.subrange(i + 1, j as int) + seq![\'`\'] + text@.subrange(j + 1, text@.len() as int));',
            'loop-1-body-entry': 'assert(after_open(text@, i as int)[j - (i + 2)] == text@[j as int]);'},
@@ -254,6 +257,10 @@ split_first = Fn(S, 'split_first_substitution', ret='r', props=('C11',),
          ' && (forall|n: int| 0 <= n <= p.1@.len() ==> depth_after(p.1@, n) >= 1)) '
          # backquote form: a non-empty command without a backquote in it
          '|| (text@ == p.0@ + seq![\'`\'] + p.1@ + seq![\'`\'] + p.2@ && p.1@.len() > 0 && !p.1@.contains(\'`\'))), None => true }'),
+        # "no substitution" is answered only when the text has no `$(` at all, or its first `$(` is never closed -- in particular a backquote
+        # without a partner in front of a `$(..)` does not hide it
+        ('C11.split.none_only_without_an_opening_or_with_an_unclosed_first_one',
+         'r.is_none() ==> forall|k: int| #[trigger] opens_at(text@, k) && (forall|q: int| 0 <= q < k ==> !opens_at(text@, q)) ==> never_closed(text@, k)'),
     ],
     loops={
         0: Loop(invariant=[('C11.inv.split.no_opening_before', 'chars@ == text@ && chars@.len() < usize::MAX as int && i <= chars@.len() && forall|k: int| 0 <= k < i ==> !opens_at(text@, k)')],
